@@ -255,6 +255,14 @@ def run(idx, rep, tier):
                        locs=[idx.loc(hutch.module, l.call)], detail="" if v is not False else "counter")
         # ---------------------------------------------------------- clause 6: probe conjugation
         probe_conjugation(idx, rep, hutch)
+        # ---------------------------------------------------------- clause 7: the estimator depends on the SIGN of the offset
+        kp = next((p for p in hutch.params if p == "k"), hutch.params[1] if len(hutch.params) > 1 else None)
+        if kp is not None:
+            n_abs, n_other = df.sign_uses(hutch.node, kp)
+            ok = n_other > 0
+            rep.decide(ok if (n_abs + n_other) else None, "offset-sign", f"{hutch.short}:{kp}", f"the offset `{kp}` is read {n_abs} time(s) under abs() and {n_other} time(s) directly" +
+                       ("" if ok else ": the estimate depends on |k| only, so diag(A, k) and diag(A, -k) receive the same estimator although they differ for every non-symmetric A "
+                        "(one of the two is the diagonal of the transpose: a biased estimate)"), detail="" if ok else "abs-only", locs=[idx.loc(hutch.module, hutch.node)])
 
     rep.floor("rng-bracket", 2)
     rep.floor("key-chain", 6)
@@ -267,7 +275,7 @@ def run(idx, rep, tier):
                        "{clean,saved,dirty,leaked}); key def-use chains of every xnp.randn call site; loop-carried keys must advance; cap certificate of "
                        "the Hutchinson loop; PRNGKey/next_key depend on their argument; estimator/probe conjugation agreement.")
     rep.assumptions += [
-        "statistical unbiasedness/variance are not decided (only the conjugation necessary condition)",
+        "statistical unbiasedness/variance are not decided (only two necessary conditions: probe/estimator conjugation, and dependence on the sign of the offset)",
         "exceptional exits between seed and set_state are not considered (normal exits only)",
         "cola/utils/utils_for_tests.py is excluded by name (test helpers)",
     ]
